@@ -205,6 +205,12 @@ function deepmergeConstructor(options: any) {
       // Date, RegExp, Map, Set and typed arrays are leaves: never merged key by key into a target
       return source;
     } else if (isPrimitiveOrBuiltIn(target)) {
+      // both are projections of one input: when one union member kept a Date / Map / Set / typed array
+      // as it is (a member of that type, or any), the plain object another member made of the same
+      // value (its declared own keys only) must not replace it
+      if (!isPrimitive(target) && !Array.isArray(source)) {
+        return target;
+      }
       return clone(source);
     } else if (sourceIsArray && targetIsArray) {
       return mergeArray(target, source);
